@@ -375,6 +375,12 @@ static mut M_CALLS: usize = 0;
 static mut M_BUF: (usize, usize) = (0, 0);
 static mut M_CFG: usize = 0;
 static mut M_ARR: (usize, usize) = (0, 0);
+static mut M_HDR: (usize, usize) = (0, 0);
+static mut M_FLAGS: u8 = 0xff;
+fn flags(c: &ParserConfig) -> u8 {
+    (c.allow_spaces_after_header_name_in_responses as u8) | (c.allow_obsolete_multiline_headers_in_responses as u8) << 1 | (c.allow_multiple_spaces_in_request_line_delimiters as u8) << 2
+        | (c.allow_multiple_spaces_in_response_status_delimiters as u8) << 3 | (c.allow_space_before_first_header_name as u8) << 4 | (c.ignore_invalid_headers_in_responses as u8) << 5 | (c.ignore_invalid_headers_in_requests as u8) << 6
+}
 static mut M_RES: u8 = 0;
 static mut M_N: usize = 0;
 // the start-line fields as the callee found them and as it left them (frame: the wrapper itself must not touch them, neither before
@@ -403,7 +409,7 @@ fn decode(which: u8, n: usize) -> Result<usize> {
 }
 impl<'h, 'b> Request<'h, 'b> {
     fn kani_model_uninit(&mut self, buf: &'b [u8], config: &ParserConfig, headers: &'h mut [MaybeUninit<Header<'b>>]) -> Result<usize> {
-        unsafe { M_CALLS += 1; M_BUF = (buf.as_ptr() as usize, buf.len()); M_CFG = config as *const ParserConfig as usize; M_ARR = (headers.as_ptr() as usize, headers.len()); }
+        unsafe { M_CALLS += 1; M_BUF = (buf.as_ptr() as usize, buf.len()); M_CFG = config as *const ParserConfig as usize; M_ARR = (headers.as_ptr() as usize, headers.len()); M_FLAGS = flags(config); }
         unsafe { M_IN = (scode(self.method), scode(self.path), vcode(self.version), 0); }
         let (m, p): (u8, u8) = (kani::any_where(|c: &u8| *c <= 2), kani::any_where(|c: &u8| *c <= 2));
         let v: Option<u8> = if kani::any() { Some(kani::any()) } else { None };
@@ -415,6 +421,7 @@ impl<'h, 'b> Request<'h, 'b> {
         let r = model_result();
         if let Ok(Status::Complete(_)) = r {
             let (init, _) = headers.split_at_mut(k);
+            unsafe { M_HDR = (init.as_ptr() as usize, init.len()); }
             self.headers = unsafe { &mut *(init as *mut [MaybeUninit<Header<'b>>] as *mut [Header<'b>]) };
         }
         r
@@ -422,7 +429,7 @@ impl<'h, 'b> Request<'h, 'b> {
 }
 impl<'h, 'b> Response<'h, 'b> {
     fn kani_model_uninit(&mut self, buf: &'b [u8], config: &ParserConfig, headers: &'h mut [MaybeUninit<Header<'b>>]) -> Result<usize> {
-        unsafe { M_CALLS += 1; M_BUF = (buf.as_ptr() as usize, buf.len()); M_CFG = config as *const ParserConfig as usize; M_ARR = (headers.as_ptr() as usize, headers.len()); }
+        unsafe { M_CALLS += 1; M_BUF = (buf.as_ptr() as usize, buf.len()); M_CFG = config as *const ParserConfig as usize; M_ARR = (headers.as_ptr() as usize, headers.len()); M_FLAGS = flags(config); }
         unsafe { M_IN = (scode(self.reason), 0, vcode(self.version), ccode(self.code)); }
         let m: u8 = kani::any_where(|c: &u8| *c <= 2);
         let v: Option<u8> = if kani::any() { Some(kani::any()) } else { None };
@@ -435,6 +442,7 @@ impl<'h, 'b> Response<'h, 'b> {
         let r = model_result();
         if let Ok(Status::Complete(_)) = r {
             let (init, _) = headers.split_at_mut(k);
+            unsafe { M_HDR = (init.as_ptr() as usize, init.len()); }
             self.headers = unsafe { &mut *(init as *mut [MaybeUninit<Header<'b>>] as *mut [Header<'b>]) };
         }
         r
@@ -507,6 +515,79 @@ fn leaf_response_wrapper_restores() {
     match r {
         Ok(Status::Complete(_)) => { assert!(resp.headers.len() <= cap); assert!(resp.headers.as_ptr() as usize == p0 || resp.headers.len() == 0); }
         _ => { assert_eq!(resp.headers.len(), cap); assert!(resp.headers.as_ptr() as usize == p0 || cap == 0); }
+    }
+}
+
+// ---------------------------------------------------------------------------------------------- the public forwarders (C16, C18, C15)
+// Request::parse_with_uninit_headers, ParserConfig::parse_request[_with_uninit_headers], ParserConfig::parse_response[_with_uninit_headers]
+// (and through them Request::parse / Response::parse): each must hand its arguments to the inner entry point unchanged (the whole
+// array, this buffer, this configuration -- the default one where none is given), return its result, and leave the value as the
+// inner entry point left it.  The Verus contracts of the forwarders cover status and fields; what `headers` is afterwards is here.
+fn any_cfg() -> ParserConfig {
+    let mut c = ParserConfig::default();
+    c.allow_spaces_after_header_name_in_responses = kani::any(); c.allow_obsolete_multiline_headers_in_responses = kani::any();
+    c.allow_multiple_spaces_in_request_line_delimiters = kani::any(); c.allow_multiple_spaces_in_response_status_delimiters = kani::any();
+    c.allow_space_before_first_header_name = kani::any(); c.ignore_invalid_headers_in_responses = kani::any(); c.ignore_invalid_headers_in_requests = kani::any();
+    c
+}
+#[kani::proof]
+#[kani::unwind(5)]
+#[kani::stub(Request::parse_with_config_and_uninit_headers, Request::kani_model_uninit)]
+fn leaf_request_forwarders_pass_through() {
+    let bufa: [u8; WB] = kani::any();
+    let blen: usize = kani::any_where(|l: &usize| *l <= WB);
+    let buf = &bufa[..blen];
+    let mut prior = [Header { name: SENTINEL, value: b"" }; 2];
+    let pl: usize = kani::any_where(|c: &usize| *c <= 2);
+    let pp = prior.as_ptr() as usize;
+    let mut scratch: [MaybeUninit<Header>; CAP] = [MaybeUninit::uninit(), MaybeUninit::uninit(), MaybeUninit::uninit()];
+    let cap: usize = kani::any_where(|c: &usize| *c <= CAP);
+    let sp = scratch.as_ptr() as usize;
+    let cfg = any_cfg();
+    let mut req = Request::new(&mut prior[..pl]);
+    let which: u8 = kani::any_where(|w: &u8| *w <= 2);
+    let (r, want_flags, want_arr) = match which {
+        0 => (req.parse_with_uninit_headers(buf, &mut scratch[..cap]), 0u8, (sp, cap)),
+        1 => (cfg.parse_request_with_uninit_headers(&mut req, buf, &mut scratch[..cap]), flags(&cfg), (sp, cap)),
+        _ => (cfg.parse_request(&mut req, buf), flags(&cfg), (pp, pl)),
+    };
+    unsafe {
+        assert!(M_CALLS == 1 && M_BUF == (buf.as_ptr() as usize, buf.len()) && M_FLAGS == want_flags);
+        assert!(M_ARR.1 == want_arr.1 && (M_ARR.0 == want_arr.0 || want_arr.1 == 0));
+        assert!(r == decode(M_RES, M_N));
+        assert!((scode(req.method), scode(req.path), vcode(req.version), 0) == M_OUT);
+        match r {
+            Ok(Status::Complete(_)) => assert!(req.headers.len() == M_HDR.1 && (req.headers.as_ptr() as usize == M_HDR.0 || M_HDR.1 == 0)),
+            _ => assert!(req.headers.len() == pl && (req.headers.as_ptr() as usize == pp || pl == 0)),
+        }
+    }
+}
+#[kani::proof]
+#[kani::unwind(5)]
+#[kani::stub(Response::parse_with_config_and_uninit_headers, Response::kani_model_uninit)]
+fn leaf_response_forwarders_pass_through() {
+    let bufa: [u8; WB] = kani::any();
+    let blen: usize = kani::any_where(|l: &usize| *l <= WB);
+    let buf = &bufa[..blen];
+    let mut prior = [Header { name: SENTINEL, value: b"" }; 2];
+    let pl: usize = kani::any_where(|c: &usize| *c <= 2);
+    let pp = prior.as_ptr() as usize;
+    let mut scratch: [MaybeUninit<Header>; CAP] = [MaybeUninit::uninit(), MaybeUninit::uninit(), MaybeUninit::uninit()];
+    let cap: usize = kani::any_where(|c: &usize| *c <= CAP);
+    let sp = scratch.as_ptr() as usize;
+    let cfg = any_cfg();
+    let mut resp = Response::new(&mut prior[..pl]);
+    let (r, want_arr) = if kani::any() { (cfg.parse_response_with_uninit_headers(&mut resp, buf, &mut scratch[..cap]), (sp, cap)) }
+                        else { (cfg.parse_response(&mut resp, buf), (pp, pl)) };
+    unsafe {
+        assert!(M_CALLS == 1 && M_BUF == (buf.as_ptr() as usize, buf.len()) && M_FLAGS == flags(&cfg));
+        assert!(M_ARR.1 == want_arr.1 && (M_ARR.0 == want_arr.0 || want_arr.1 == 0));
+        assert!(r == decode(M_RES, M_N));
+        assert!((scode(resp.reason), 0, vcode(resp.version), ccode(resp.code)) == M_OUT);
+        match r {
+            Ok(Status::Complete(_)) => assert!(resp.headers.len() == M_HDR.1 && (resp.headers.as_ptr() as usize == M_HDR.0 || M_HDR.1 == 0)),
+            _ => assert!(resp.headers.len() == pl && (resp.headers.as_ptr() as usize == pp || pl == 0)),
+        }
     }
 }
 
